@@ -1877,7 +1877,9 @@ def pretty_str(s, ctx, split_pattern=None):
         if len(lines) <= 1:
             # No lines at all means an empty string that didn't
             # fit the available width.
-            return flat_version
+            if is_native_type:
+                return flat_version
+            return build_fncall(ctx, constructor, argdocs=[flat_version])
 
         parts = intersperse(
             HARDLINE,
